@@ -66,3 +66,7 @@ THEOREMS["C08"] += ["Backend.runObs_fst", "Backend.C08_drops_are_observed", "Bac
                     "Backend.C08_obs_classification", "Backend.C08_front_outcome_on_text", "Backend.C08_ret0_iff_discarded",
                     "Backend.C08_ret0_iff_discarded_resumed"]
 MODULES["C08"] += ["QuillModel.Props.C08Trace"]
+# format round (w2_fmt2): formatter exceptions in the backend model (Cfg.fmtFaults, fmtNote at decode in readQueue /
+# readQueueU / readQueueF); Props/C10Format.lean
+THEOREMS["C10"] += ["Backend.C10_fmt_note_step", "Backend.C10_fmt_fault_keeps_record", "Backend.C10_fmt_faults_constant"]
+MODULES["C10"] += ["QuillModel.Props.C10Format"]
